@@ -46,8 +46,9 @@ type Case struct {
 }
 
 type result struct {
-	out string
-	err bool
+	out      string
+	err      bool
+	panicked bool
 }
 
 func (r result) String() string {
@@ -74,9 +75,36 @@ func dataFor(p cat.Program, n int) map[string]any {
 
 // call renders program p through entry on the given engines.
 func call(p cat.Program, root vuego.Template, vue *vuego.Vue, entry string, data map[string]any, suffix string) result {
+	return callMode(p, root, vue, entry, data, suffix, false)
+}
+
+// callMode: with base=true the stateless render methods are called directly on the single shared
+// base template (which was filled once before the concurrent phase), as the statement allows.
+func callMode(p cat.Program, root vuego.Template, vue *vuego.Vue, entry string, data map[string]any, suffix string, base bool) (res result) {
+	defer func() {
+		if r := recover(); r != nil {
+			res = result{out: fmt.Sprintf("PANIC in render goroutine: %v", r), err: true, panicked: true}
+		}
+	}()
 	var buf bytes.Buffer
 	ctx := context.Background()
 	var err error
+	if base {
+		switch entry {
+		case "file":
+			err = root.RenderFile(ctx, &buf, "page.vuego")
+			return result{out: buf.String(), err: err != nil}
+		case "string":
+			err = root.RenderString(ctx, &buf, p.Files["page.vuego"]+suffix)
+			return result{out: buf.String(), err: err != nil}
+		case "reader":
+			err = root.RenderReader(ctx, &buf, strings.NewReader(p.Files["page.vuego"]+suffix))
+			return result{out: buf.String(), err: err != nil}
+		case "load":
+			err = root.Load("page.vuego").Render(ctx, &buf)
+			return result{out: buf.String(), err: err != nil}
+		}
+	}
 	switch entry {
 	case "load":
 		err = root.Load("page.vuego").Fill(data).Render(ctx, &buf)
@@ -169,6 +197,9 @@ func newWorld(name string, c Case) (*world, error) {
 	}
 	w := &world{p: p, fsys: p.FS(), solo: map[string][]result{}}
 	w.root = p.Engine(w.fsys)
+	if c.BaseTpl {
+		w.root = w.root.Fill(dataFor(p, c.N))
+	}
 	w.vue = p.NewVue(w.fsys)
 	return w, nil
 }
@@ -200,7 +231,11 @@ func soloResults(w *world, c Case, entry string, g int) []result {
 		pp := w.p
 		pp.Files = files
 		fsys := memfs.FromMap(files)
-		out = append(out, call(pp, pp.Engine(fsys), pp.NewVue(fsys), entry, dataFor(pp, c.N), suffix))
+		root := pp.Engine(fsys)
+		if c.BaseTpl {
+			root = root.Fill(dataFor(pp, c.N))
+		}
+		out = append(out, callMode(pp, root, pp.NewVue(fsys), entry, dataFor(pp, c.N), suffix, c.BaseTpl))
 	}
 	w.solo[key] = out
 	return out
@@ -210,6 +245,7 @@ func check(c Case) error {
 	if c.N <= 0 || c.Reps <= 0 || len(c.Entries) == 0 {
 		return nil
 	}
+	run.Inflight(prop, "case", c)
 	if c.Procs > 0 {
 		defer runtime.GOMAXPROCS(runtime.GOMAXPROCS(c.Procs))
 	}
@@ -257,7 +293,7 @@ func check(c Case) error {
 		for _, w := range worlds {
 			for _, e := range c.Entries {
 				if applicable(w.p, e) {
-					call(w.p, w.root, w.vue, e, dataFor(w.p, c.N), "")
+					callMode(w.p, w.root, w.vue, e, dataFor(w.p, c.N), "", c.BaseTpl)
 				}
 			}
 		}
@@ -305,7 +341,7 @@ func check(c Case) error {
 						break
 					}
 				}
-				got := call(j.w.p, j.w.root, j.w.vue, j.entry, data, j.suffix)
+				got := callMode(j.w.p, j.w.root, j.w.vue, j.entry, data, j.suffix, c.BaseTpl)
 				atomic.AddInt32(&inflight, -1)
 				mu.Lock()
 				observed = append(observed, obs{j, got})
@@ -355,6 +391,10 @@ func check(c Case) error {
 	}
 	// compare every concurrent result with the same call run alone on a fresh engine
 	for _, o := range observed {
+		if o.got.panicked {
+			failures = append(failures, fmt.Sprintf("program %s, goroutine %d, entry %s: %s", o.j.w.p.Name, o.j.g, o.j.entry, o.got.out))
+			continue
+		}
 		allow := soloResults(o.j.w, c, o.j.entry, o.j.g)
 		ok := false
 		for _, a := range allow {
@@ -400,6 +440,9 @@ func classify(c Case) (bool, []string) {
 	if c.Second != "" {
 		cls = append(cls, "two-engines")
 	}
+	if c.BaseTpl {
+		cls = append(cls, "calls-on-the-single-base-template")
+	}
 	for _, e := range c.Entries {
 		cls = append(cls, "entry="+e)
 	}
@@ -428,6 +471,8 @@ func TestProp(t *testing.T) {
 				{Prog: p.Name, Second: second, N: 4, Reps: reps, Entries: []string{"load", "string", "vue", "file"}, Unique: true, Shared: true, Procs: 4},
 				{Prog: p.Name, N: 32, Reps: 2, Entries: []string{"vue"}, Shared: true, Procs: 16},
 				{Prog: p.Name, N: 6, Reps: reps, Entries: []string{"frag", "reader", "file"}, Warm: true, Procs: 1},
+				{Prog: p.Name, N: 16, Reps: reps, Entries: []string{"string", "reader", "file", "load"}, BaseTpl: true, Unique: true, Procs: 16},
+				{Prog: p.Name, N: 8, Reps: reps, Entries: []string{"string", "file", "vue"}, BaseTpl: true, Warm: true, Writer: "page.vuego", Procs: 4},
 			}
 			if run.Thorough() {
 				configs = append(configs,
@@ -448,13 +493,14 @@ func TestProp(t *testing.T) {
 	names := cat.Names()
 	run.Rapid(t, rec, "random", func(t *rapid.T) Case {
 		c := Case{
-			Prog:   rapid.SampledFrom(names).Draw(t, "prog"),
-			N:      rapid.SampledFrom([]int{2, 4, 8, 16}).Draw(t, "n"),
-			Reps:   rapid.IntRange(1, 4).Draw(t, "reps"),
-			Warm:   rapid.Bool().Draw(t, "warm"),
-			Shared: rapid.Bool().Draw(t, "shared"),
-			Unique: rapid.Bool().Draw(t, "unique"),
-			Procs:  rapid.SampledFrom([]int{1, 4, 16}).Draw(t, "procs"),
+			Prog:    rapid.SampledFrom(names).Draw(t, "prog"),
+			N:       rapid.SampledFrom([]int{2, 4, 8, 16}).Draw(t, "n"),
+			Reps:    rapid.IntRange(1, 4).Draw(t, "reps"),
+			Warm:    rapid.Bool().Draw(t, "warm"),
+			Shared:  rapid.Bool().Draw(t, "shared"),
+			Unique:  rapid.Bool().Draw(t, "unique"),
+			Procs:   rapid.SampledFrom([]int{1, 4, 16}).Draw(t, "procs"),
+			BaseTpl: rapid.Bool().Draw(t, "base"),
 		}
 		k := rapid.IntRange(1, 4).Draw(t, "ne")
 		for j := 0; j < k; j++ {
